@@ -281,7 +281,7 @@ CHECKS = {
        "(panics included); all of them are also executed next to the model on every run (flag gen=). A construct "
        "outside the subset is rejected and reported as a broken obligation (no-failing-input-found), never guessed. "
        "C17m_Invert: the regenerated matrix.Invert equals the model's Gaussian elimination for every square byte matrix (returns a "
-       "two-sided inverse, errSingular iff not invertible); C17m_buildMatrix, C17m_Multiply likewise; C17m_SubMatrix: the regenerated SubMatrix returns exactly the requested window for every window and size.",
+       "two-sided inverse, errSingular iff not invertible); C17m_buildMatrix, C17m_Multiply likewise; C17m_SubMatrix: the regenerated SubMatrix returns exactly the requested window for every window and size; C17m_SwapRows(_invalid): SwapRows exchanges exactly the two rows, or reports errInvalidRowSize leaving the matrix untouched.",
   note=TB + " Faithfulness of the Go-subset translator (integer widths, wrap-around, value-semantics slices, panics) is trusted; it is "
        "cross-checked by running the package's own functions on the same inputs. Leopard tables of the running package are tied to the model by executed comparison (complete for GF8 and for GF16 log/exp/skew/walsh; "
        "sampled log_m for the 33M-entry GF16 product tables); GF2P8AFFINEQB semantics as in the Intel SDM.",
